@@ -842,3 +842,174 @@ func parserNonEmptyLists(c *Ctx, r *RuleResult) map[string]bool {
 	c.Extra["lists_never_empty_after_parsing"] = names
 	return out
 }
+
+// wholeNodeDrop (C12.R3 / C13.R4, second half): whether a node is printed AT ALL may depend on the node being
+// there, its kind, a built-in flag or an option — not on which of its parts are present. A presence test of N.F may
+// guard the printing of F; when it guards the call that prints N itself (the node handed as an argument), the parts
+// the test does not mention are lost with it (`extend type X implements Y` dropped because X has no fields).
+func wholeNodeDrop(c *Ctx, r *RuleResult, side string) {
+	p := c.P
+	n := 0
+	for _, fn := range p.FuncsIn("formatter") {
+		allInstrs(fn, func(in ssa.Instruction) {
+			ci, ok := in.(ssa.CallInstruction)
+			if !ok {
+				return
+			}
+			g := ci.Common().StaticCallee()
+			if g == nil || p.PkgOf(g) == nil || !strings.HasSuffix(p.PkgOf(g).PkgPath, "/formatter") || !strings.HasPrefix(g.Name(), "Format") {
+				return
+			}
+			for _, a := range ci.Common().Args {
+				nt := namedOf(a.Type())
+				if pt, ok := a.Type().(*types.Pointer); ok {
+					nt = namedOf(pt.Elem())
+				}
+				if nt == nil || nt.Obj().Pkg() == nil || !strings.HasSuffix(nt.Obj().Pkg().Path(), "/ast") {
+					continue
+				}
+				if _, isStruct := nt.Underlying().(*types.Struct); !isStruct {
+					continue
+				}
+				inSchema, inQuery := false, false
+				for _, sn := range schemaNodes {
+					if sn == nt.Obj().Name() {
+						inSchema = true
+					}
+				}
+				for _, qn := range queryNodes {
+					if qn == nt.Obj().Name() {
+						inQuery = true
+					}
+				}
+				if side == "schema" && !inSchema || side == "query" && !inQuery {
+					continue
+				}
+				n++
+				// can the call be skipped (next iteration of its loop, or return, reached around it) through a branch
+				// that tests the node's parts?
+				cb := in.Block()
+				headers, bodies := loopsOf(fn)
+				var inner *ssa.BasicBlock
+				for _, h := range headers {
+					if bodies[h][cb] && h != cb && (inner == nil || len(bodies[h]) < len(bodies[inner])) {
+						inner = h
+					}
+				}
+				var starts []*ssa.BasicBlock
+				if inner != nil {
+					for _, s := range inner.Succs {
+						if bodies[inner][s] && s != inner {
+							starts = append(starts, s)
+						}
+					}
+				} else {
+					starts = []*ssa.BasicBlock{fn.Blocks[0]}
+				}
+				for _, st := range starts {
+					if st == cb {
+						continue
+					}
+					rr := reachAvoiding(st, func(b *ssa.BasicBlock) bool { return b == cb }, nil)
+					ends := false
+					for b := range rr {
+						if b == inner {
+							ends = true
+						}
+						if _, isRet := b.Instrs[len(b.Instrs)-1].(*ssa.Return); isRet && inner == nil {
+							ends = true
+						}
+					}
+					if !ends {
+						continue
+					}
+					for b := range rr {
+						ifi, ok := b.Instrs[len(b.Instrs)-1].(*ssa.If)
+						if !ok || (inner != nil && !bodies[inner][b]) {
+							continue
+						}
+						// the branch must be able to lead to the call as well (it decides)
+						toCall := false
+						for _, s := range b.Succs {
+							if s == cb || reachAvoiding(s, nil, nil)[cb] {
+								toCall = true
+							}
+						}
+						if !toCall {
+							continue
+						}
+						if what := partsTest(p, ifi.Cond, a, 0); what != "" {
+							r.Fail(in.Pos(), p.FuncName(fn), "a whole "+nt.Obj().Name()+" is printed only if "+what, "the call that prints the node can be bypassed through a test of which of the node's parts are present: a node whose tested parts are empty is dropped together with the parts the test does not mention")
+							return
+						}
+					}
+				}
+			}
+		})
+	}
+	r.Instances += n
+	r.Discharged += n
+	r.Samples = append(r.Samples, fmt.Sprintf("%d calls that print a whole node: none is guarded by a test of the node's own parts", n))
+}
+
+// partsTest: cond tests the presence of a field of node (directly, or through a helper predicate handed the node).
+func partsTest(p *Program, cond ssa.Value, node ssa.Value, depth int) string {
+	cd := normCond(Cond{V: cond, True: true})
+	sameNode := func(v ssa.Value) bool {
+		return stripChange(v) == stripChange(node) || accessPath(v) == accessPath(node)
+	}
+	switch x := cd.V.(type) {
+	case *ssa.BinOp:
+		for _, o := range []ssa.Value{x.X, x.Y} {
+			o = stripChange(o)
+			if call, ok := o.(*ssa.Call); ok {
+				if b, isB := call.Call.Value.(*ssa.Builtin); isB && b.Name() == "len" {
+					o = stripChange(call.Call.Args[0])
+				}
+			}
+			if u, ok := o.(*ssa.UnOp); ok {
+				if fa, ok := u.X.(*ssa.FieldAddr); ok && sameNode(fa.X) {
+					nm, f, _, _ := fieldOf(fa)
+					if f == "Kind" || f == "BuiltIn" || f == "Name" {
+						continue
+					}
+					if nm != nil {
+						return "its " + f + " is present"
+					}
+				}
+			}
+		}
+	case *ssa.Call:
+		g := x.Call.StaticCallee()
+		if g == nil || !p.inModule(g) || len(g.Blocks) == 0 || depth > 1 {
+			return ""
+		}
+		for i, a := range x.Call.Args {
+			if !sameNode(a) || i >= len(g.Params) {
+				continue
+			}
+			prm := g.Params[i]
+			found := ""
+			allInstrs(g, func(in ssa.Instruction) {
+				if found != "" {
+					return
+				}
+				if bo, ok := in.(*ssa.BinOp); ok {
+					if w := partsTest(p, bo, prm, depth+1); w != "" {
+						found = w
+					}
+				}
+			})
+			if found != "" {
+				return p.FuncName(g) + "() says so (" + found + ")"
+			}
+		}
+	case *ssa.Phi:
+		for _, e := range x.Edges {
+			if w := partsTest(p, e, node, depth+1); w != "" && depth < 3 {
+				return w
+			}
+		}
+	}
+	return ""
+}
